@@ -1,5 +1,5 @@
 """C19 Default-constructed packets hold the declared defaults."""
-import os, itertools
+import os, itertools, json
 from common import *
 import decl, gen, pktcases, pktprops
 
@@ -151,7 +151,33 @@ def run(tier, seed, rng):
             if r['outcome']['ok'] != want:
                 failures.append(dict(kind='oracle', sig='defaults-after-mutation', what='a packet constructed after another default-constructed packet was mutated in place does not hold the declared defaults',
                                      classes=pktprops.class_source(groups, r['group']), cls=decl.cname(r['c']), observed=r['outcome'], required=want))
-    dist = dict(constructed=0, with_keywords=0, pack_compared=0, falsy_keywords=falsy_checked, after_mutation=after)
+    # ---- prototypes whose own fields are described (Auto / AutoLength): the default of the reference is a COPY of the prototype,
+    # hidden descriptor state included (a field pinned by keyword in the prototype stays pinned in every default copy)
+    psrc = ("from bisturi.descriptor import AutoLength\n"
+            "class Chunk(Packet):\n    length = Int(1).describe(AutoLength('payload'))\n    payload = Data(length, default=b'abc')\n")
+    pins = [None, 0, 3, 5]
+    for i, pin in enumerate(pins):
+        arg = '' if pin is None else f"length={pin}"
+        psrc += f"class Outer{i}(Packet):\n    tag = Int(1, default=170)\n    chunk = Ref(Chunk({arg}))\n"
+        psrc += f"class Deep{i}(Packet):\n    o = Ref(Outer{i})\n    t = Int(1)\n"
+    pcases = [dict(cls=f"{k}{i}", op='default', value={"py": f"{k}{i}()" + ('.o' if k == 'Deep' else '') + ".chunk.length"}) for i in range(len(pins)) for k in ('Outer', 'Deep')] + \
+             [dict(cls=f"{k}{i}", op='pack', value={"py": f"{k}{i}()"}) for i in range(len(pins)) for k in ('Outer', 'Deep')]
+    pres = run_impl(os.path.join(VERIF, 'harness', 'impl_pkt.py'), dict(header=decl.HEADER_PY, blocks=[dict(name='protos', src=psrc)], modname='c19p', cases=pcases))
+    half = len(pcases) // 2
+    for j, (c, o) in enumerate(zip(pcases, pres['outcomes'])):
+        i = (j % half) // 2
+        pin = pins[i]
+        want_len = 3 if pin is None else pin
+        deep = c['cls'].startswith('Deep')
+        if j < half:
+            ok = o.get('ok') == want_len        # what the attribute reads
+        else:
+            want = bytes([170, want_len]) + b'abc' + (b'\x00' if deep else b'')
+            ok = o.get('ok') == want.hex()
+        if not ok:
+            failures.append(dict(kind='oracle', sig='defaults-prototype-descriptor', what=f"the default of Ref(Chunk({'length=%s' % pin if pin is not None else ''})) is not a copy of the prototype: its described field 'length' must read / pack {want_len}",
+                                 classes=psrc, cls=c['cls'], observed=o))
+    dist = dict(constructed=0, with_keywords=0, pack_compared=0, falsy_keywords=falsy_checked, after_mutation=after, prototype_descriptor_cases=len(pcases))
     recs = [r for r in records if r['kind'] in ('default', 'pack') and r.get('tag') != 'falsy']
     it = iter(recs)
     for (gid, c, kw) in meta:
